@@ -2,7 +2,14 @@
 
 package fox
 
-import "github.com/tigerwill90/fox/internal/netutil"
+import (
+	"unsafe"
+
+	"github.com/tigerwill90/fox/internal/netutil"
+)
 
 // VerifStripHostPort exposes the host normalisation applied before hostname matching.
 func VerifStripHostPort(h string) string { return netutil.StripHostPort(h) }
+
+// VerifRouteAddr returns the identity of a route object (matches VerifNode.RouteAddr).
+func VerifRouteAddr(r *Route) uintptr { return uintptr(unsafe.Pointer(r)) }
